@@ -473,7 +473,7 @@ class AbsSpectrumCalculator(EnergyUnitsManaged):
         data = numpy.real(self.one_transition_spectrum(tr))
         
         for ii in range(2,HH.dim):
-            if relaxation_tensor is not None:
+            if (relaxation_tensor is not None) or (rate_matrix is not None):
                 tr["gg"] = gg[ii]
             else:
                 tr["gg"] = [0.0]
